@@ -2719,8 +2719,12 @@ def prune_unused_graph_inputs_ir(graph: ir.Graph) -> None:
             return True
         # Preserve positional graph inputs that correspond to original JAX
         # function arguments (named ``in_<index>`` by IRContext.add_input_for_invar).
+        # Layout-flagged inputs are declared as ``in_<index>_nchw`` by
+        # conversion_api._LayoutAdapter.bind_input; they are positional too.
         if name.startswith("in_"):
             suffix = name[3:]
+            if suffix.endswith("_nchw"):
+                suffix = suffix[: -len("_nchw")]
             if suffix.isdigit():
                 return True
         return False
